@@ -316,16 +316,14 @@ fn process_deposits_for_single_pool<C: ContentAddrStore>(
         .fold(0u128, |a, b| a.saturating_add(b));
     let total_mtsqrt = total_mtsqrt.max(sum_mtsqrt);
     // main logic here
-    let total_liqs = if let Some(mut pool_state) = state.pools.get(pool) {
-        let liq = pool_state.deposit(total_lefts, total_rights);
-        state.pools.insert(*pool, pool_state);
-        liq
-    } else {
-        let mut pool_state = PoolState::new_empty();
-        let liq = pool_state.deposit(total_lefts, total_rights);
-        state.pools.insert(*pool, pool_state);
-        liq
-    };
+    // the depositors share what the pool records as newly issued. That is what `deposit` returns,
+    // except when the recorded liquidity saturates at the top of its range: the return value is then
+    // larger than the increase, and handing it out would leave more tokens in coins than the pool knows of
+    let mut pool_state = state.pools.get(pool).unwrap_or_else(PoolState::new_empty);
+    let liqs_before = pool_state.liqs;
+    let _ = pool_state.deposit(total_lefts, total_rights);
+    let total_liqs = pool_state.liqs - liqs_before;
+    state.pools.insert(*pool, pool_state);
     // divvy up the liqs
     deposits.iter_mut().for_each(|deposit| {
         let original_tx = deposit.clone();
